@@ -1,7 +1,8 @@
 """C19 — library calls never modify caller-owned arguments; results documented as new do not alias them.
 
 Static half (regenerated on every run): harness/effects/translate.py turns every public function and
-method of the inventoried modules (inventory taken from the modules' own ASTs) into the effect IR;
+method of the inventoried modules (inventory taken from the modules' own ASTs) into the effect IR, and every public class
+into its call-history programs (constructor / classmethod constructor, then any sequence of its members on the object);
 the Lean analysis `Pew.Effects.ana` (sound by theorems mayWrite_sound / mayAlias_sound) is run on it
 by the driver; its may-write / may-alias report must stay inside the documented mutators / the
 reviewed alias baseline.  Dynamic half: the same function is called with generated arguments
@@ -157,10 +158,13 @@ class Maker:
             a[m] = np.nan
         return a
 
-    def struct(self, shape, names=("A", "B")):
+    def struct(self, shape, names=("A", "B"), nan=0.1):
         s = np.empty(shape, dtype=[(n, np.float64) for n in names])
+        holes = nan and self.rng.random() < 0.2  # now and then an image with missing values (NaN) in every element
         for n in names:
             s[n] = self.arr(shape, nan=0)
+            if holes:
+                s[n][self.np_rng.random_sample(shape) < nan] = np.nan
         return s
 
     def calibration(self):
@@ -251,8 +255,8 @@ def build_args(mk: Maker, qual, pnames, fn_sig):
                 vals[name] = npz.pack_calibration({"A": mk.calibration(), "B": mk.calibration()})
             elif name == "mask":
                 vals[name] = rng.choice([None, mk.np_rng.random_sample((7, 8)) > 0.3])
-            elif name == "psf":
-                vals[name] = np.array([0.25, 0.5, 0.25])
+            elif name == "psf":  # kernels of one, two, three and five taps
+                vals[name] = np.array(rng.choice([[1.0], [0.5, 0.5], [0.25, 0.5, 0.25], [0.25, 0.5, 0.25], [0.1, 0.2, 0.4, 0.2, 0.1]]))
             elif name == "w":
                 vals[name] = rng.choice([None, np.array([1.0, 2.0, 1.0, 0.5, 1.0, 1.0, 2.0, 1.0])])
             elif short == "add":
@@ -287,7 +291,10 @@ def build_args(mk: Maker, qual, pnames, fn_sig):
         elif name == "laser":
             vals[name] = rng.choice([mk.laser, mk.srrlaser])()
         elif name == "offsets":
-            vals[name] = [(0, 0), (1, 1)] if "overlap" in short else rng.choice([[(0, 0), (1, 1)], [(1, 2), (2, 2)], [0, 1]])
+            if "overlap" in short:  # one offset per array, any sign, the per-axis minimum mostly not zero
+                vals[name] = [(0, 0), (1, 1)] if rng.random() < 0.2 else [(rng.randint(-2, 3), rng.randint(-2, 3)) for _ in range(2)]
+            else:
+                vals[name] = rng.choice([[(0, 0), (1, 1)], [(1, 2), (2, 2)], [0, 1]])
         elif name == "elements":
             vals[name] = ["A", "B"]
         elif name == "element":
@@ -295,7 +302,8 @@ def build_args(mk: Maker, qual, pnames, fn_sig):
         elif name == "names":
             vals[name] = {"A": "Z"} if "dict" in ann else rng.choice(["A", ["A"], ["B", "A"], ["missing"]])
         elif name in ("calibration",):
-            vals[name] = rng.choice([None, mk.calibration()]) if "dict" not in ann else rng.choice([None, {"A": mk.calibration()}])
+            vals[name] = rng.choice([None, mk.calibration()]) if "dict" not in ann else \
+                rng.choice([None, {}, {"A": mk.calibration()}, {"A": mk.calibration(), "B": mk.calibration()}])  # none / partial / complete
         elif name == "dict":
             vals[name] = {"A": mk.calibration(), "B": mk.calibration()}
         elif name == "config":
@@ -359,6 +367,93 @@ def build_args(mk: Maker, qual, pnames, fn_sig):
         else:
             raise KeyError(f"no factory for {qual}({name}: {ann})")
     return vals
+
+
+# ----------------------------------------------------------------------------- general variation of the built arguments
+def _numeric_rows(v):
+    """a list / tuple of numbers, or of equally long tuples / lists of numbers"""
+    num = (int, float, np.integer, np.floating)
+    if not isinstance(v, (list, tuple)) or not v:
+        return False
+    if all(isinstance(x, num) and not isinstance(x, bool) for x in v):
+        return True
+    return all(isinstance(x, (list, tuple)) and x and all(isinstance(y, num) and not isinstance(y, bool) for y in x) for x in v) \
+        and len({len(x) for x in v}) == 1
+
+
+def vary_arguments(mk: Maker, f, args, force_malformed=False):
+    """General input classes on top of what the factories build (feature names returned):
+    sequence-form:*   every list / tuple argument also as a tuple, a list, ONE ndarray (rows of numbers -> 2-d table, arrays
+                      of one shape -> stacked), or a list of 1-d arrays — the spellings NumPy-style code accepts alike;
+    scalars-from-data float parameters take values occurring in the first array argument (parameters named *min* its
+                      minimum, *max* its maximum, others one of minimum / maximum / first element): ranges the data spans
+                      exactly, thresholds that are attained;
+    defaults-used     parameters that have a default are left out, so the default object itself is what the body sees."""
+    rng, feats = mk.rng, set()
+    defaults = set(f.get("defaults", ()))
+    if rng.random() < 0.5:
+        for k, v in list(args.items()):
+            if k in ("self", "cls") or not isinstance(v, (list, tuple)) or not v:
+                continue
+            forms = ["same"]
+            if _numeric_rows(v):
+                forms += ["ndarray", "ndarray", "tuple" if isinstance(v, list) else "list", "arrays"]
+            elif all(isinstance(x, np.ndarray) for x in v):
+                forms += ["tuple" if isinstance(v, list) else "list"]
+                if len({(x.shape, str(x.dtype)) for x in v}) == 1:
+                    forms += ["ndarray", "ndarray"]
+            else:
+                forms += ["tuple" if isinstance(v, list) else "list"]
+            form = rng.choice(forms)
+            if form == "ndarray":
+                args[k] = np.array(v) if _numeric_rows(v) else np.stack(v)
+            elif form == "tuple":
+                args[k] = tuple(tuple(x) if isinstance(x, list) else x for x in v)
+            elif form == "list":
+                args[k] = [list(x) if isinstance(x, tuple) and _numeric_rows(v) else x for x in v]
+            elif form == "arrays":
+                args[k] = [np.array(x) for x in v]
+            if form != "same":
+                feats.add("sequence-form:" + form)
+    arrs = [v for k, v in args.items() if k != "self" and isinstance(v, np.ndarray) and v.dtype.kind == "f" and v.size
+            and not v.dtype.names]
+    if arrs and rng.random() < 0.25:
+        a = arrs[0]
+        fin = a[np.isfinite(a)]
+        if fin.size:
+            lo, hi, first = float(fin.min()), float(fin.max()), float(fin.flat[0])
+            for k, v in list(args.items()):
+                ann = (f["sig"].get(k) or "")
+                if isinstance(v, float) and ann.replace(" ", "").startswith("float") and not isinstance(v, bool):
+                    args[k] = lo if "min" in k else hi if "max" in k else rng.choice([lo, hi, first])
+                    feats.add("scalars-from-data")
+    if defaults and rng.random() < 0.35:
+        for k in list(args):
+            if k in defaults and rng.random() < 0.6:
+                del args[k]
+                feats.add("defaults-used")
+    if rng.random() < 0.12 or force_malformed:  # one argument of the right type but the wrong shape / dtype / length: most such calls raise half-way
+        cands = [k for k, v in args.items() if k not in ("self", "cls") and (len(v) > 0 if isinstance(v, (list, dict)) else isinstance(v, np.ndarray) and v.ndim > 0 and v.shape[0] > 0)]
+        if cands:
+            k = rng.choice(sorted(cands))
+            v = args[k]
+            if isinstance(v, np.ndarray) and not v.dtype.names and v.dtype.kind == "f":
+                kind = rng.choice(["int", "bool", "float32", "extra-axis", "flat", "empty", "one-short", "fortran", "inf"])
+                w = np.nan_to_num(v)
+                args[k] = {"int": lambda: w.astype(np.int64), "bool": lambda: w > 0, "float32": lambda: v.astype(np.float32),
+                           "extra-axis": lambda: v[..., None].copy(), "flat": lambda: v.ravel().copy(), "empty": lambda: v[:0].copy(),
+                           "one-short": lambda: v[:-1].copy(), "fortran": lambda: np.asfortranarray(v),
+                           "inf": lambda: np.where(np.arange(v.size).reshape(v.shape) % 3 == 0, np.inf, v)}[kind]()
+            elif isinstance(v, np.ndarray):
+                kind = rng.choice(["empty", "one-short"])
+                args[k] = v[:0].copy() if kind == "empty" else v[:-1].copy()
+            elif isinstance(v, list):
+                kind = rng.choice(["empty", "one-short"])
+                args[k] = [] if kind == "empty" else v[:-1]
+            else:
+                kind, args[k] = "empty", {}
+            feats.add("malformed-argument:" + kind)
+    return feats
 
 
 # ----------------------------------------------------------------------------- the I/O readers and the peak finder
@@ -750,12 +845,21 @@ class C19(Prop):
     id = "C19"
     anchored = ["src/pewlib/" + m.split("pewlib.")[1].replace(".", "/") + ".py" for m in T.INVENTORY_MODULES]
     cases = {"quick": 500, "thorough": 6000}
-    rule = ("targeted: every translator regression case (harness/effects/tests: synthetic source -> real translator -> real Lean "
+    rule = ("targeted: the static obligation of every call-history program (one per public class and producer: constructor / "
+            "classmethod constructor; `Pew.Effects.history`: construct, then any sequence of the public methods, property getters "
+            "and setters on the object) and every two-call history `construct; member` run for real with value AND slot-identity "
+            "snapshots of everything the caller passed (mutators and setters with 4, thorough 12, argument seeds); "
+            "every translator regression case (harness/effects/tests: synthetic source -> real translator -> real Lean "
             "analysis, plus a real run of the synthetic function); one case per inventoried public function/method (static "
             "obligation for every parameter + one dynamic call); 4 (thorough: 24) calls with overlapping / identical array "
             "arguments for every function with two ndarray parameters; 24 (thorough: 149) more for every function with a pair in "
-            "UNPROVED_STATIC (dynamic-only pairs); then random (function, argument seed) pairs, 15% of those that can with "
-            "overlapping arguments; non-trivial = the call actually ran pewlib code with at least one array/list/dict/object "
+            "UNPROVED_STATIC (dynamic-only pairs); then random cases: 80% (function, argument seed) pairs, 15% of those that can "
+            "with overlapping arguments, 20% call histories of 1-4 random members on one object.  On every argument seed but 0 the "
+            "built arguments are varied by general classes: sequence-form (every list / tuple also as tuple, list, ONE ndarray, list "
+            "of 1-d arrays), scalars-from-data (float parameters = minimum / maximum / first element of the first array argument), "
+            "defaults-used (parameters with a default left out), malformed-argument (one argument of the wrong shape / dtype / "
+            "length: calls that raise half-way), generators consumed only partly; every result is also EDITED (all bytes "
+            "inverted, containers extended) with the arguments compared afterwards; non-trivial = the call actually ran pewlib code with at least one array/list/dict/object "
             "argument; distinct by (function, argument seed)")
     trusted = ["harness/effects/translate.py (Python AST -> effect IR with a heap) and its tables of NumPy/stdlib calls returning "
                "fresh memory, views, or writing an argument (reviewed against the installed NumPy; positional `out` parameters "
@@ -790,6 +894,15 @@ class C19(Prop):
                "translation is validated by the regression cases and by the dynamic snapshot run: every observed write / "
                "sharing must have been predicted by the analysis"]
     assumptions = ["writes performed inside C extensions on buffers the table calls fresh are not visible",
+                   "call histories: the history program of a class has one parameter per argument of the producer and of every "
+                   "member; a real history passing the SAME object in two calls, or passing something the object returned back "
+                   "into it, is outside its start state (like overlapping arguments of one call); a member that raised is the "
+                   "last call of the histories the theorem covers (`Calls.raised`), the dynamic histories go on after a raise; "
+                   "results of members that are documented views of what the object holds (Laser.get of one element) alias the "
+                   "constructor's argument while `Laser(arr).data is arr`: recorded (DESIGN 9.5), the history obligation is "
+                   "about writes",
+                   "module-level state (globals, class attributes, mutable default arguments) is one object G of the IR; what "
+                   "may write it / return part of it is listed in the evidence (recorded only: G is not an argument)",
                    "UNPROVED_STATIC in harness/c19.py lists the (function, parameter) pairs that rest on the dynamic calls alone "
                    "(user callbacks, an open file handle's position, results holding the caller's immutable Path/tuple objects, "
                    "boolean-mask indexing); they are not counted as static obligations and permit nothing at run time",
@@ -824,11 +937,25 @@ class C19(Prop):
             for q, mod, fn, ck, ctor in T.inventory(prog):
                 n, pnames, ir = tr.translate(mod, fn, ck, ctor)
                 sig = {nm: a for nm, a in T.Translator.param_names(fn)}
+                fa = fn.args
+                defaults = [x.arg for x in (fa.posonlyargs + fa.args)[len(fa.posonlyargs + fa.args) - len(fa.defaults):]] + \
+                    [x.arg for x, dv in zip(fa.kwonlyargs, fa.kw_defaults) if dv is not None]
                 # what each annotation claims (asserted on the arguments the factories build, see `check_annotations`)
                 types = {nm: T.annotation_type(prog, mod, a) for nm, a in sig.items() if a is not None}
                 inv[q] = {"name": q, "np": n, "params": pnames, "ir": ir, "diag": list(tr.diag), "sig": sig, "module": mod,
-                          "kind": "constructor" if ctor else ("method" if ck else "function"), "types": types}
+                          "kind": "constructor" if ctor else ("method" if ck else "function"), "types": types,
+                          "defaults": defaults, "gvar": tr.gvar}
             inv["__plain_fields__"] = [[k[0], k[1], f, t] for (k, f), t in sorted(prog.plain_fields.items())]
+            hidx = {}
+            for mod_ in T.INVENTORY_MODULES:
+                for node in (prog.mods[mod_].body if mod_ in prog.mods else ()):
+                    if type(node).__name__ == "ClassDef" and not node.name.startswith("_"):
+                        producers, members = T.class_members(prog, (mod_, node.name))
+                        for pr in producers:
+                            q = f"{mod_}.{node.name}" + ("" if pr[0] == "init" else f".{pr[2].name}")
+                            hidx[q] = {"class": f"{mod_}.{node.name}", "members": [m[0] for m in members],
+                                       "kinds": [m[3] for m in members]}
+            inv["__histories__"] = hidx
             # the Lean analysis of every regenerated program, once per run (the driver evaluates `Pew.Effects.ana`)
             d = core.Driver()
             try:
@@ -848,10 +975,130 @@ class C19(Prop):
     def funcs(self):
         return {k: v for k, v in self.inv().items() if not k.startswith("__")}
 
+    # ------------------------------------------------------------------ call histories on one object (static)
+    def history_index(self):
+        """{producer qualified name: {"class", "members": [qualified names], "kinds"}} for every public class of the
+        inventoried modules: its constructor and classmethod constructors, and what can be called on an exact instance"""
+        if getattr(self, "_hidx", None) is None:
+            self._hidx = self.inv()["__histories__"]
+        return self._hidx
+
+    def _translator(self):
+        if getattr(self, "_tr", None) is None:
+            prog = T.Program(core.REPO, T.INVENTORY_MODULES)
+            tr = T.Translator(prog)
+            tr.infer_plain_fields()
+            self._tr = (prog, tr)
+        return self._tr
+
+    def history_report(self, producer, driver=None):
+        """the regenerated history program of one producer, analysed by the driver: which parameters of the history
+        (constructor arguments and arguments of later method calls) may be written by SOME call history on the object
+        (`Pew.Effects.history`, theorem `history_write_sound`), which the built object may retain (`retention_sound`),
+        and — when something is reported — by which two-call history `construct; method` (`twoCall_write_sound`).
+        Computed once per run and producer (whichever process needs it first), shared through the run's temp dir."""
+        import json
+        import os
+
+        cache = getattr(self, "_hrep", None)
+        if cache is None:
+            cache = self._hrep = {}
+        if producer in cache:
+            return cache[producer]
+        base = os.environ.get("PEWVERIF_TMPBASE")
+        fpath = Path(base) / ("c19-history-" + producer.replace(".", "_") + ".json") if base and os.path.isdir(base) else None
+        if fpath is not None and fpath.exists():
+            cache[producer] = json.loads(fpath.read_text())
+            return cache[producer]
+        prog, tr = self._translator()
+        cls_q = self.history_index()[producer]["class"]
+        key = (cls_q.rsplit(".", 1)[0], cls_q.rsplit(".", 1)[1])
+        producers, members = T.class_members(prog, key)
+        pr = next(x for x in producers if (cls_q if x[0] == "init" else f"{cls_q}.{x[2].name}") == producer)
+        h = tr.translate_history(key, pr, members)
+        own = driver is None
+        d = core.Driver() if own else driver
+        try:
+            rep = d.call("c19.history", np=h["np"], ctor=h["ctor"], methods=h["methods"])
+            ret = d.call("c19.retained", np=h["np"], ctor=h["ctor"], x=h["obj"], t=h["tmp"])
+            two = d.call("c19.two_call", np=h["np"], ctor=h["ctor"], methods=h["methods"])["two_call"] if rep["write"] else []
+        finally:
+            if own:
+                d.close()
+        params = [list(x) for x in h["params"]]
+        out = {"producer": producer, "class": cls_q, "np": h["np"], "params": params, "members": [m[0] for m in members],
+               "write": rep["write"], "top": rep["top"], "retained": ret["retained"],
+               "two_call": {members[j][0]: w for j, w in enumerate(two) if w}, "diag": h["diag"]}
+        out = json.loads(json.dumps(out))
+        if fpath is not None:
+            tmp = fpath.with_suffix(f".{os.getpid()}.tmp")
+            tmp.write_text(json.dumps(out))
+            os.replace(tmp, fpath)
+        cache[producer] = out
+        return out
+
+    @staticmethod
+    def history_broken(rep):
+        """the parameters of a history that may be written although nothing allows it: "owner(param)" labels.
+        A parameter the single-call rules let its own call write (ALLOWED_WRITES, or a `write` waiver of UNPROVED_STATIC:
+        an open file's position) is not a caller-owned array / list / dict."""
+        out = []
+        for i in rep["write"]:
+            owner, pname = rep["params"][i]
+            if (owner, pname) in ALLOWED_WRITES or static_waived(owner, pname, "write"):
+                continue
+            out.append(f"{owner}({pname})")
+        return out
+
+    @staticmethod
+    def _with_module_state_as_parameter(ir, gvar, index):
+        """the same program with the object standing for the module-level state bound as parameter `index` (it is bound
+        exactly once, to a fresh object, right after the real parameters)"""
+        hit = []
+
+        def walk(s):
+            if s[0] == "bind" and s[1] == gvar and s[2][0] == "fresh" and not hit:
+                hit.append(1)
+                return ["bind", gvar, ["param", index]]
+            if s[0] == "seq":
+                return ["seq", [walk(t) for t in s[1]]]
+            if s[0] == "branch":
+                return ["branch", walk(s[1]), walk(s[2])]
+            if s[0] == "loop":
+                return ["loop", walk(s[1])]
+            return s
+        out = walk(ir)
+        return out if hit else None
+
+    def module_state_effects(self, d):
+        """RECORDED ONLY (no verdict: module-level state is not an argument): the functions that, by the same analysis with
+        the module-level state `G` (module globals, class attributes, mutable default arguments) as one more region, may
+        write it or return (part of) it — a cache handing the same mutable object to two callers would show up here"""
+        writes, returns = [], []
+        for name, f in sorted(self.funcs().items()):
+            if f.get("gvar") is None or any("UNKNOWN FUNCTION" in x for x in f["diag"]):
+                if any("UNKNOWN FUNCTION" in x for x in f["diag"]):
+                    writes.append(name + " (unknown function)")
+                    returns.append(name + " (unknown function)")
+                continue
+            ir = self._with_module_state_as_parameter(f["ir"], f["gvar"], f["np"])
+            if ir is None:
+                continue
+            rep = d.call("c19.analyse", np=f["np"] + 1, prog=ir)
+            if f["np"] in rep["write"]:
+                writes.append(name)
+            if f["np"] in rep["ret"]:
+                returns.append(name)
+        return writes, returns
+
     def extra_evidence(self):
         """the per-(function, parameter) obligations computed by the Lean analysis on the regenerated IR"""
         d = core.Driver()
         try:
+            import time as _t
+            _t0 = _t.time()
+            ms_w, ms_r = self.module_state_effects(d)
+            ms_t = round(_t.time() - _t0, 2)
             n = ok = pairs = 0
             broken, unknown_calls, unproved, stale = [], [], [], []
             for name, f in sorted(self.funcs().items()):
@@ -879,20 +1126,51 @@ class C19(Prop):
             for cid in REG.all_ids():
                 reg_fail += REG.check(cid, d)
             nreg = len(REG.all_ids())
+            # call histories: one obligation per (producer, parameter of the history program)
+            hn = hok = 0
+            hbroken, retained, hunknown = [], {}, []
+            for prod in sorted(self.history_index()):
+                rep = self.history_report(prod, d)
+                bad = set(self.history_broken(rep))
+                for o, pn in rep["params"]:
+                    hn += 1
+                    hok += f"{o}({pn})" not in bad
+                hbroken += [f"{prod}: {b} (two-call: {sorted(k.split('.')[-1] for k, v in rep['two_call'].items())})" for b in sorted(bad)]
+                retained[prod] = [rep["params"][i][1] for i in rep["retained"] if rep["params"][i][0] == prod]
+                hunknown += [f"{prod}: {x}" for x in rep["diag"] if "UNKNOWN HISTORY" in x]
+            n_single = n
+            n += hn
+            ok += hok
         finally:
             d.close()
         return {"obligations": n, "discharged": ok,
                 "coverage": {"inventoried_functions": len(self.funcs()), "function_parameter_pairs": pairs,
-                             "function_parameter_obligations": n, "obligations_broken": broken[:50],
+                             "function_parameter_obligations": n_single, "obligations_broken": broken[:50],
                              "static_unproved_dynamic_only": unproved, "static_unproved_entries_not_needed": stale,
                              "translator_regression_cases": f"{nreg}, " + ("all as expected" if not reg_fail
                                                                             else f"{len(reg_fail)} FAILED"),
                              "translator_regression_failures": reg_fail[:50],
                              "allowed_writes": [f"{k[0]}({k[1]}) [{v[0]}]: {v[1]}" for k, v in sorted(ALLOWED_WRITES.items())],
                              "fields_typed_plain": len(self.inv()["__plain_fields__"]),
+                             "module_state_may_be_written_by (recorded only)": ms_w,
+                             "results_may_hold_module_state (recorded only)": ms_r, "module_state_analysis_s": ms_t,
+                             "history_programs": len(self.history_index()), "history_parameter_obligations": hn,
+                             "history_obligations_broken": hbroken[:50], "history_programs_unknown": hunknown[:20],
+                             "constructor_retained_parameters": retained,
                              "translator_unknown_calls": sorted(set(unknown_calls))[:50]}}
 
     def targeted(self, tier):
+        # call histories on one object: the static obligation of every producer (constructor / classmethod constructor)
+        # first — the history programs are the largest analyses of the run, the workers share the results — the classes
+        # costliest first
+        hidx = self.history_index()
+        import json
+        funcs = self.funcs()
+
+        def cost(q):  # the producer's own program, run once, plus the members' programs in a loop
+            return len(json.dumps(funcs[q]["ir"])) + 3 * sum(len(json.dumps(funcs[m]["ir"])) for m in hidx[q]["members"] if m in funcs)
+        for prod in sorted(hidx, key=lambda q: (-cost(q) if q in funcs else 0, q)):
+            yield {"hist": prod, "calls": [], "aseed": 0}
         # the translator's soundness / precision regression cases (harness/effects/tests): a failed one is a broken tie
         for cid in REG.all_ids():
             yield {"regress": cid}
@@ -907,8 +1185,24 @@ class C19(Prop):
         for name in sorted({k[0] for k in UNPROVED_STATIC} & set(self.funcs())):
             for a in range(1, 25 if tier == "quick" else 150):
                 yield {"func": name, "aseed": a}
+        # "whether it returns or raises": for every function a call (thorough: 8) with one argument of the wrong shape / dtype / length
+        for name in sorted(self.funcs()):
+            for a in (1,) if tier == "quick" else range(1, 9):
+                yield {"func": name, "aseed": a, "malformed": True}
+        # every two-call history `construct; member` run for real (mutators and setters with more argument seeds)
+        for prod, h in sorted(self.history_index().items()):
+            for m, kind in zip(h["members"], h["kinds"]):
+                many = m.split(".")[-1] in self.MUTATING_MEMBERS or kind == "setter"
+                for a in range(0, (4 if tier == "quick" else 12) if many else 1):
+                    yield {"hist": prod, "calls": [m], "aseed": a}
 
     def generate(self, rng, tier):
+        if rng.random() < 0.2:  # a longer call history on one object
+            hidx = self.history_index()
+            prod = rng.choice(sorted(p for p, h in hidx.items() if h["members"]))
+            ms = hidx[prod]["members"]
+            return {"hist": prod, "calls": [rng.choice(ms) for _ in range(rng.choice([1, 2, 2, 3, 3, 4]))],
+                    "aseed": rng.randint(1, 10 ** 6)}
         names = sorted(self.funcs())
         name = rng.choice(names)
         case = {"func": name, "aseed": rng.randint(1, 10 ** 6)}
@@ -934,6 +1228,18 @@ class C19(Prop):
                     suspects.append(name)
         finally:
             d.close()
+        # call histories whose static obligation is broken: the two-call histories the analysis names, then longer ones
+        hsus = []
+        for prod, h in sorted(self.history_index().items()):
+            rep = self.history_report(prod)
+            if self.history_broken(rep):
+                hsus.append((prod, [m for m in h["members"] if m in rep["two_call"]] or h["members"], h["members"]))
+        for s in range(60 if tier == "quick" else 200):
+            for prod, ms, allm in hsus:
+                for m in ms:
+                    yield {"hist": prod, "calls": [m], "aseed": 10 ** 6 + 1 + s}
+                yield {"hist": prod, "calls": [allm[(s + j) % len(allm)] for j in range(1 + s % 3)] + [ms[s % len(ms)]],
+                       "aseed": 10 ** 6 + 1 + s}
         per = max(40, (1500 if tier == "quick" else 6000) // max(1, len(suspects)))
         for s in range(per):
             for name in suspects:
@@ -1015,6 +1321,8 @@ class C19(Prop):
 
         if "regress" in case:
             return self.evaluate_regression(case, ctx)
+        if "hist" in case:
+            return self.evaluate_history(case, ctx)
         inv = self.funcs()
         if case["func"] not in inv:
             # the function no longer exists (inventory is derived from the modules themselves): nothing to observe
@@ -1045,6 +1353,8 @@ class C19(Prop):
             except KeyError as e:
                 raise core.InternalError(str(e))
             args = self.paths(name, args, mk, tmp)
+            if case["aseed"] != 0:
+                feats |= vary_arguments(mk, f, args, force_malformed=bool(case.get("malformed")))
             if case.get("overlap"):
                 overlaps = self.make_overlap(f, args, mk)
             wrong = self.check_annotations(f, args)
@@ -1063,7 +1373,11 @@ class C19(Prop):
             try:
                 result = self.invoke(name, kind, args)
                 if inspect.isgenerator(result):  # csv_valid_lines, read_datafile_csvs: the body runs when iterated
-                    result = list(result)
+                    if case["aseed"] != 0 and rng.random() < 0.3:  # ... as far as the caller iterates
+                        result = [next(result, None)] + [result.close()][:0]
+                        feats.add("generator-partially-consumed")
+                    else:
+                        result = list(result)
             except Exception as e:  # arguments that make the call fail are part of the quantifier
                 raised = type(e).__name__
             finally:
@@ -1082,6 +1396,21 @@ class C19(Prop):
             for k, v in args.items():
                 if observe.shares(result, v):
                     aliased.append(k)
+            # ... "so editing a result does not alter the argument it was computed from", literally: overwrite everything
+            # reachable from the result, look at the arguments, put everything back
+            edited = observe.edit_and_restore(result, lambda: sorted(k for k in args if snap(args[k]) != after[k]))
+            if edited:
+                feats.add("result-edit-reaches-argument")
+            aliased += [k for k in edited if k not in aliased]
+            # RECORDED ONLY (no verdict: not an alias of an input): does an equal second call hand out (part of) the same
+            # object again — a cache or a module-level table returned by reference?
+            if case["aseed"] != 0 and kind == "function" and rng.random() < 0.3 and not mk.handles:
+                try:
+                    again = self.invoke(name, kind, copy.deepcopy(args))
+                    if again is not None and not inspect.isgenerator(again) and observe.shares(result, again):
+                        feats.add("recorded-only:equal-calls-share-their-result:" + name.split("pewlib.")[-1])
+                except Exception:
+                    pass
         # a documented mutator may change its argument in any way; an object-state setter only the attribute bindings of
         # its receiver, never an array / list / dict that was reachable from any argument when the call started
         bad_changed = sorted({p for p in changed if not dyn_write_allowed(name, p)}
@@ -1117,7 +1446,134 @@ class C19(Prop):
             note = f"obligation broken: analysis reports may-write {bad_w} / may-alias {bad_r} for {name}"
         model["unpredicted"] = unpredicted
         return outcome(impl, model, spec, spec_ok=(not bad_changed and not bad_aliased), model_ok=model_ok,
-                       features=feats if "has-mutable-arg" in feats else [], note=note)
+                       features=feats if ("has-mutable-arg" in feats or any(x.startswith("recorded-only") for x in feats)) else [],
+                       note=note)
+
+    # ------------------------------------------------------------------ call histories on one object (dynamic)
+    MUTATING_MEMBERS = ("add", "remove", "rename")
+
+    @staticmethod
+    def fit_to_receiver(obj, member, args, mk):
+        """arguments of a later call that must match the object built earlier (the new element's shape)"""
+        if member.split(".")[-1] == "add" and "data" in args:
+            data = getattr(obj, "data", None)
+            if isinstance(data, np.ndarray):
+                args["data"] = mk.arr(data.shape[:2], nan=0)
+            elif isinstance(data, (list, tuple)) and data and all(isinstance(x, np.ndarray) for x in data):
+                args["data"] = [mk.arr(x.shape, nan=0) for x in data]
+
+    def evaluate_history(self, case, ctx):
+        """construct an object from caller-owned containers, keep deep snapshots AND identities of everything passed,
+        run the named methods on the object one after the other (arguments from the factories, also kept), and compare
+        every caller-owned container after every step: values, and which object sits in which slot.  The static
+        obligation of the producer's history program (`history_report`) is the model side."""
+        import logging
+        import random
+        import warnings
+
+        inv, hidx = self.funcs(), self.history_index()
+        prod, calls = case["hist"], list(case["calls"])
+        if prod not in hidx or any(c not in hidx[prod]["members"] for c in calls):
+            return outcome({"absent": True}, {"absent": True}, {"absent": True}, features=[])
+        rep = self.history_report(prod, ctx.driver)
+        broken = self.history_broken(rep)
+        if prod not in inv or any(c not in inv for c in calls):
+            # a producer / member the single-call inventory does not list (an inherited constructor): no argument factory,
+            # the static obligation of the history program still applies
+            obs = {"caller_owned_changed": [], "calls_made": 0}
+            return outcome(obs, {"history_write_outside_allowed": broken, "unpredicted": []}, obs, spec_ok=True,
+                           model_ok=not broken, features=["history:static-only"],
+                           note=f"history obligation broken: {broken}" if broken else "")
+        predicted = {f"{o}({n})" for o, n in (rep["params"][i] for i in rep["write"])} | \
+            ({f"{o}({n})" for o, n in rep["params"]} if rep["top"] else set())
+        model = {"history_write_outside_allowed": broken}
+        rng = random.Random(f"c19h:{prod}:{'|'.join(calls)}:{case['aseed']}")
+        tmp = ctx.tmpdir()
+        mk = Maker(rng, tmp)
+        feats = {"history:%d-calls" % len(calls), "history-producer:" + inv[prod]["kind"]}
+        warnings.simplefilter("ignore")
+        np.seterr(all="ignore")
+        logging.disable(logging.CRITICAL)
+        owned, changed_at, steps, raised_at = [], {}, [], []
+
+        def keep(owner, args):
+            for k, v in args.items():
+                if k not in ("self", "cls"):
+                    owned.append((f"{owner}({k})", v, snap(v), observe.inner_snapshot(v), observe.identity_snapshot(v)))
+
+        def compare(step):
+            for label, v, deep, inner, ident in owned:
+                if label not in changed_at and (snap(v) != deep or observe.inner_changed(inner) or observe.identity_changed(ident)):
+                    changed_at[label] = step
+
+        def build(name, pnames):
+            f = inv[name]
+            mk.tmp = tmp / f"step{len(owned)}-{len(steps)}"  # the synthetic files of each call in a directory of their own
+            mk.tmp.mkdir(exist_ok=True)
+            try:
+                a = build_new_args(mk, name, pnames, f["sig"]) if name.startswith(NEW_MODULES) else build_args(mk, name, pnames, f["sig"])
+            except KeyError as e:
+                raise core.InternalError(str(e))
+            a = self.paths(name, a, mk, mk.tmp)
+            if case["aseed"] != 0:
+                feats.update(x for x in vary_arguments(mk, f, a))
+            wrong = self.check_annotations(f, a)
+            if wrong:
+                raise core.InternalError(f"argument factory of {name} contradicts an annotation the translator trusts: {wrong}")
+            return a
+        saved_perm = np.random.get_state()
+        np.random.seed(rng.randint(0, 2 ** 31 - 1))
+        try:
+            fp = inv[prod]
+            pargs = build(prod, [p for p in fp["params"] if p not in ("self", "cls")])
+            for v in pargs.values():
+                if isinstance(v, (list, tuple, dict, np.ndarray)):
+                    feats.add("history:caller-" + type(v).__name__)
+            keep(prod, pargs)
+            obj = None
+            try:
+                obj = self.invoke(prod, fp["kind"], dict(pargs))
+            except Exception as e:
+                raised_at.append(0)
+            compare(0)
+            steps.append(prod)
+            if obj is not None:
+                for i, c in enumerate(calls, start=1):
+                    fc = inv[c]
+                    margs = build(c, [p for p in fc["params"] if p not in ("self", "cls")])
+                    self.fit_to_receiver(obj, c, margs, mk)
+                    keep(c, margs)
+                    try:
+                        r = self.invoke(c, fc["kind"], dict(margs, self=obj))
+                        if inspect.isgenerator(r):
+                            list(r)
+                    except Exception:
+                        raised_at.append(i)
+                    compare(i)
+                    steps.append(c)
+                    if c.split(".")[-1] in self.MUTATING_MEMBERS or c.endswith(".setter"):
+                        feats.add("history:mutator-or-setter-call")
+        finally:
+            np.random.set_state(saved_perm)
+            logging.disable(logging.NOTSET)
+            for h in mk.handles:
+                h.close()
+        if raised_at:
+            feats.add("history:a-call-raised")
+        bad = sorted(changed_at)
+        impl = {"caller_owned_changed": [f"{k} after step {changed_at[k]} ({steps[changed_at[k]].split('.')[-1]})" for k in bad],
+                "calls_made": len(steps)}
+        spec = {"caller_owned_changed": [], "calls_made": len(steps)}
+        unpredicted = [k for k in bad if k not in predicted]
+        model["unpredicted"] = unpredicted
+        note = ""
+        if unpredicted:
+            note = f"dynamic effect of a call history not predicted by the analysis of the history program: {unpredicted}"
+        elif broken:
+            note = (f"history obligation broken: after {prod}(...) some sequence of method calls may write {broken}"
+                    f" (two-call histories: { {k.split('.')[-1]: [rep['params'][i][1] for i in v] for k, v in rep['two_call'].items()} });"
+                    f" the object may retain {[rep['params'][i][1] for i in rep['retained'] if rep['params'][i][0] == prod]}")
+        return outcome(impl, model, spec, spec_ok=not bad, model_ok=not broken and not unpredicted, features=feats, note=note[:1500])
 
     def paths(self, name, args, mk, tmp):
         """replace the PATH placeholders by real files / destinations under the private temp dir"""
@@ -1178,6 +1634,9 @@ class C19(Prop):
     def shrink(self, case):
         if "regress" in case:
             return
+        if "hist" in case:
+            for i in range(len(case["calls"])):
+                yield {**case, "calls": case["calls"][:i] + case["calls"][i + 1:]}
         if case["aseed"] != 0:
             yield {**case, "aseed": 0}
 
